@@ -130,12 +130,30 @@ def fam_integer(maxd):
         good = td.variant == "Primitive" and td.fields[0].variant == "Integer"
         if not good:
             return z3.BoolVal(False)
-        return z3.And(fits, td.fields[0].fields[0] == val, z3.BoolVal(a == 0 and b == off + k))
+        return z3.And(fits, td.fields[0].fields[0] == val, z3.BoolVal(a == 0 and b == off + k), after_literal(ex, chars, ln, off + k, tokens))
     return build, expect
 
 
+def after_literal(ex, chars, ln, end, tokens):
+    """a parenthesis directly after the literal is its own token (the literal does not swallow the delimiter)"""
+    nxt = tokens[1][0].fields[0].variant if len(tokens) > 1 else None
+    c = chars[end] if end < len(chars) else None
+    if c is None:
+        return z3.BoolVal(True)
+    has = zlen(ln) > end
+    return z3.And(z3.Implies(z3.And(has, c == 40), z3.BoolVal(nxt == "LeftParen")), z3.Implies(z3.And(has, c == 41), z3.BoolVal(nxt == "RightParen")))
+
+
+def zlen(ln):
+    return z3.IntVal(ln) if isinstance(ln, int) else ln
+
+
 def pytail(rest):
-    """tokens denoted by the <= 2 characters after a literal (a delimiter then any character): used only in replays"""
+    """tokens denoted by what follows a literal, as far as this family speaks about it: a parenthesis is its own token"""
+    if rest[:1] == "(":
+        return " ;; LP"
+    if rest[:1] == ")":
+        return " ;; RP"
     return " ..." if rest else ""
 
 
@@ -174,7 +192,7 @@ def fam_ratio(maxn, maxd):
         td = tok.fields[0]
         if not (td.variant == "Primitive" and td.fields[0].variant == "Rational"):
             return z3.BoolVal(False)
-        return z3.And(ok, td.fields[0].fields[0] == num, td.fields[0].fields[1] == den, z3.BoolVal(s1 == ka + 1 + kb))
+        return z3.And(ok, td.fields[0].fields[0] == num, td.fields[0].fields[1] == den, z3.BoolVal(s1 == ka + 1 + kb), after_literal(ex, chars, ln, ka + 1 + kb, tokens))
     return build, expect
 
 
